@@ -67,7 +67,8 @@ def m2m_columns(app_label, model, field):
     """(from_column, to_column) of an auto-created through table."""
     src = model['name'].lower()
     dst = field['to'].split('.')[1].lower()
-    if field['to'] == '%s.%s' % (app_label, model['name']):
+    if src == dst:
+        # Django compares object names only (even across apps)
         return 'from_%s_id' % src, 'to_%s_id' % dst
     return src + '_id', dst + '_id'
 
@@ -655,11 +656,17 @@ def validate_state(state):
                 if n not in plain:
                     raise SpecError('Meta names missing field %s' % n)
             meta = m.get('meta') or {}
+            unnamed = set()
             for ix in meta.get('indexes') or []:
                 if ix.get('name'):
                     if ix['name'] in names:
                         raise SpecError('duplicate index name')
                     names.add(ix['name'])
+                else:
+                    key = tuple(ix.get('fields') or [])
+                    if key in unnamed:
+                        raise SpecError('duplicate auto-named index')
+                    unnamed.add(key)
             for c in meta.get('constraints') or []:
                 if c['name'] in names:
                     raise SpecError('duplicate constraint name')
